@@ -27,6 +27,24 @@ ALLOWED_SINKS = {
     "std::result::Result::<T, E>::map_err": "maps the error, result still carries it",
     "std::result::Result::<T, E>::map": "maps the success value, an error is carried through",
     "std::option::Option::<T>::map": "maps the payload",
+    "std::ops::Try::branch": "`?`: the value is returned as ControlFlow::Continue / Break, nothing is dropped",
+    "std::ops::FromResidual::from_residual": "`?`: the residual (the error, converted with From) becomes the function's result",
+    "std::result::Result::<T, E>::and_then": "the success value goes to a local closure (whose body is subject to nodrop), an error is carried through",
+    "std::result::Result::<T, E>::or_else": "the error goes to a local closure (whose body is subject to nodrop)",
+    "std::result::Result::<T, E>::map_or_else": "both sides go to local closures (whose bodies are subject to nodrop)",
+    "std::result::Result::<T, E>::unwrap_or_else": "the error goes to a local closure (whose body is subject to nodrop)",
+    "std::option::Option::<T>::and_then": "the payload goes to a local closure (whose body is subject to nodrop)",
+    "std::option::Option::<T>::map_or_else": "the payload goes to a local closure (whose body is subject to nodrop)",
+    "std::option::Option::<T>::ok_or": "the payload is carried into Ok",
+    "std::option::Option::<T>::ok_or_else": "the payload is carried into Ok",
+    "std::option::Option::<std::result::Result<T, E>>::transpose": "Option<Result> -> Result<Option>: nothing is dropped",
+    "std::result::Result::<std::option::Option<T>, E>::transpose": "Result<Option> -> Option<Result>: nothing is dropped",
+    "std::mem::replace": "the value is stored, the previous one returned",
+    "std::mem::swap": "values are exchanged",
+    "std::vec::Vec::<T, A>::push": "the value is stored",
+    "std::collections::VecDeque::<T, A>::push_back": "the value is stored",
+    "std::boxed::Box::<T>::new": "the value is boxed",
+    "std::iter::once": "the value becomes the iterator's only item",
     "walkdir::Error::into_io_error": "moves the io::Error out of a walkdir error known to be an I/O error",
     "std::io::Error::new": "wraps the WalkError as the source of an io::Error",
 }
